@@ -220,6 +220,8 @@ def run_random(col, n, **kw):
 
 def random_history(rng, layout, ring, ndcs):
     strats = random_strategies(rng, layout, ring, ndcs, 6)
+    strats += [['unknown', 'org.apache.cassandra.locator.EverywhereStrategy'], ['local'], ['unknown', 'com.example.CustomStrategy']][:rng.randint(1, 3)]
+    rng.shuffle(strats)
     hist = [['update_keyspace', strats[0]], ['query']]
     for _ in range(rng.randint(2, 7)):
         r = rng.random()
@@ -253,9 +255,10 @@ def judge_history(col, layout, ring, history, queries, record=True):
     seen_strats = []
     nbad = 0
     for i, op, cur_ring, cur, obs in rh.play_history(layout, ring, history, queries):
-        if cur is None:
-            # keyspace dropped / not yet created: no replication settings, the statement says nothing (the driver answers [])
-            ctx.count('history_step', op[0] + ':no-keyspace' + ('' if all(not g for _, g in obs) else ':nonempty'))
+        if not rh.placed(cur):
+            # keyspace dropped / not yet created / LocalStrategy / a strategy class unknown to the driver: the statement says
+            # nothing (the driver answers [] and may cache an empty map -- which must not survive a later ALTER)
+            ctx.count('history_step', op[0] + (':no-keyspace' if cur is None else ':' + cur[0]) + ('' if all(not g for _, g in obs) else ':nonempty'))
             continue
         for t, got in obs:
             j = rh.judge(layout, cur_ring, cur, t, got)
@@ -290,6 +293,11 @@ def run_histories(col, n):
     lay0, ring0 = [[0, 0], [0, 1], [0, 0]], [[-10, 0], [0, 1], [10, 2]]
     for a, b in ((['simple', '1'], ['simple', '3']), (['nts', {'0': '1'}], ['nts', {'0': '2'}]), (['simple', '2'], ['nts', {'0': '3'}])):
         judge_history(col, lay0, ring0, [['update_keyspace', a], ['query'], ['update_keyspace', b], ['query']], [-10, 0, 10, 11])
+        # empty replica map cached for settings without a placement, then ALTER to a real strategy -- and the reverse, and back
+        for u in (['unknown', 'org.apache.cassandra.locator.EverywhereStrategy'], ['local']):
+            judge_history(col, lay0, ring0, [['update_keyspace', u], ['query'], ['update_keyspace', b], ['query'],
+                                             ['update_keyspace', u], ['query'], ['update_keyspace', a], ['query']], [-10, 0, 10, 11])
+            judge_history(col, lay0, ring0, [['update_keyspace', u], ['query'], ['rebuild_all', a], ['query'], ['rebuild_keyspace']], [-10, 11])
     for _ in range(n):
         layout, ring, ndcs = random_ring(rng, max_hosts=5, max_tok=3)
         q = random_queries(rng, ring, -2 ** 63, 2 ** 63 - 1)[:6]
@@ -396,7 +404,7 @@ def replay(ctx, rp):
         seen = []
         for i, op, cur_ring, cur, obs in rh.play_history(case['layout'], [list(e) for e in case['ring']], case['history'], case['queries']):
             for t, got in obs:
-                if cur is None:
+                if not rh.placed(cur):
                     continue
                 j = rh.judge(case['layout'], cur_ring, cur, t, got)
                 print('replay step %d %r settings=%r token=%r driver=%r cassandra=%r %s' % (
